@@ -8,6 +8,9 @@ runs on it.
 * correspondence (model = lean/CijModel/{LeastSq,FullModulus}.lean, run over Rat by the driver on the arrays the
   Python code actually had): every key's static part, both totals, `static_p_array`, the axial strains, the
   equal-thirds normalisation; plus OPTIMALITY of numpy's fit against the exact minimum (library contract).
+  Since round 4 also the TRANSLATED SOURCE itself (`Generated/FullModulusGlue.lean`, every def of full_modulus.py as statement lists,
+  interpreted by `CijModel/FullModulusGlue.lean` in the driver, op `c05.src`): static part of every key, axial strains, static
+  pressure, and `fit_modulus` called directly with NON-default orders (the theorems cover every order, the Calculator uses one).
 * oracle (independent of cij and of the model): everything recomputed from the *files* with the harness' own
   parsers, own least squares (long double, scaled basis), own Eulerian strain, own CODATA factor, own symmetry
   completion by group averaging: grid; key set; total − static_ref == task-list output re-run on the constructed
@@ -41,6 +44,7 @@ TRUSTED_EXTRA = [
 
 TOL_MODEL = 1e-7        # fitted quantities, model (exact LSQ) vs numpy (conditioning of the cubic fit)
 TOL_SUM = 1e-12         # static + phonon in double precision
+TOL_DIRECT = {1: 1e-7, 2: 1e-7, 3: 1e-5}   # fit_modulus(order=k) called directly; the quartic (order 3) is worse conditioned in doubles
 TOL_ORACLE = 1e-8       # independent reference vs real code, relative to the family scale
 C_AX_INT, C_AX_END = 0.6, 0.4      # axial strains: interior C*h^2, ends C*h   (h = max relative grid step)
 C_SP_INT, C_SP_END = 2.5, 3.5      # static pressure: interior C*h^2, ends C*h (relative to max |P_static|)
@@ -87,6 +91,13 @@ def observe(calc) -> dict:
         qv = ob["qha_volumes"]
         ob["e_strains"] = numpy.array(calculate_eulerian_strain(qv[0], qv))
         ob["e_strain_array"] = numpy.array(calculate_eulerian_strain(qv[0], calc.v_array))
+        # `fit_modulus` called directly with explicit orders (the Calculator itself only ever uses the default): order 1 always,
+        # order 3 (a quartic) when the table has at least 6 rows
+        ob["direct_fits"] = []
+        col = numpy.array(_from_gpa(ob["table"][tuple(keys[0].v)]))
+        for order in (1, 2, 3):
+            if order + 2 > len(vols) or (order == 3 and len(vols) < 6): continue
+            ob["direct_fits"].append({"moduli": col, "order": order, "value": numpy.array(fm.fit_modulus(col, order=order))})
     return ob
 
 
@@ -109,14 +120,17 @@ def model_ops(ob: dict) -> List[dict]:
     ops = [dict(base, op="c05.static"), dict(base, op="c05.axial"),
            {"op": "c05.static_p", "strains": enc(ob["e_strains"]), "energies": enc(ob["energies"]),
             "strain_array": enc(ob["e_strain_array"]), "v_array": enc(ob["v_array"])},
-           {"op": "c05.task_fraction", "rows": enc(ob["axial"][:2])}]
+           {"op": "c05.task_fraction", "rows": enc(ob["axial"][:2])},
+           dict(base, op="c05.src", qha_volumes=enc(ob["qha_volumes"]), energies=enc(ob["energies"]),
+                e_strains=enc(ob["e_strains"]), e_strain_array=enc(ob["e_strain_array"]),
+                fits=[{"moduli": enc(f["moduli"]), "order": int(f["order"])} for f in ob.get("direct_fits", [])])]
     return ops
 
 
 def compare_model(ob: dict, ans: List, driver, res: Result, label: dict) -> int:
     """returns number of validated comparisons; appends Disagreements"""
     n_ok = 0
-    m_static, m_axial, m_sp, m_frac = ans
+    m_static, m_axial, m_sp, m_frac, m_src = ans
 
     def dis(op, impl, model, note):
         res.disagreements.append(Disagreement(op, label, jsonable(impl), jsonable(model), note))
@@ -162,6 +176,34 @@ def compare_model(ob: dict, ans: List, driver, res: Result, label: dict) -> int:
     ok, err, _ = family_close(impl, mod, rtol=1e-12)
     if ok: n_ok += 1
     else: dis("c05.task_fraction", impl, mod, f"relerr {err:.3e}")
+    # the translated source, interpreted: what full_modulus.py SAYS now, evaluated exactly on the arrays this run had
+    cnt = res.distribution.setdefault("translated_source_interpreted", {"static_keys": 0, "axial": 0, "static_pressure": 0,
+                                                                         "fit_modulus_direct": {}})
+    if not isinstance(m_src, dict):
+        dis("c05.src", None, m_src, "interpreter of the translated source answered nothing")
+        return n_ok
+    for k in ob["keys"]:
+        v = m_src["static"].get(kstr(k))
+        if v is None or isinstance(v, str):
+            dis("c05.src.static", ob["static"][k][:3], v, f"key {k}: the translated get_static_modulus does not evaluate"); continue
+        ok, err, _ = family_close(ob["static"][k], dec_arr(v), rtol=TOL_MODEL)
+        cnt["static_keys"] += 1
+        if ok: n_ok += 1
+        else: dis("c05.src.static", ob["static"][k], dec_arr(v), f"key {k} relerr {err:.3e}")
+    for name, got, want in (("axial", m_src["axial"], ob["axial"]), ("static_p", m_src["static_p"], ob["static_p"])):
+        if isinstance(got, str):
+            dis("c05.src." + name, want[:2], got, "the translated statements do not evaluate"); continue
+        ok, err, _ = family_close(want, dec_arr(got), rtol=TOL_MODEL)
+        cnt["axial" if name == "axial" else "static_pressure"] += 1
+        if ok: n_ok += 1
+        else: dis("c05.src." + name, want, dec_arr(got), f"relerr {err:.3e}")
+    for f, got in zip(ob.get("direct_fits", []), m_src.get("fits", [])):
+        o = str(f["order"]); cnt["fit_modulus_direct"][o] = cnt["fit_modulus_direct"].get(o, 0) + 1
+        if isinstance(got, str):
+            dis("c05.src.fit", f["value"][:3], got, f"order {o}: the translated fit_modulus does not evaluate"); continue
+        ok, err, _ = family_close(f["value"], dec_arr(got), rtol=TOL_DIRECT[f["order"]])
+        if ok: n_ok += 1
+        else: dis("c05.src.fit", f["value"], dec_arr(got), f"fit_modulus(order={o}) relerr {err:.3e}")
     return n_ok
 
 
@@ -396,6 +438,22 @@ def history_oracle(files: Dict[str, str]) -> List[dict]:
         shutil.rmtree(d, ignore_errors=True)
 
 
+def rewrite_oracle(files: Dict[str, str], files_alt: Dict[str, str]) -> List[dict]:
+    """"read from those files", second history: in ONE directory first a calculation on `files_alt` (same names, same volumes / keys /
+    lattice, OTHER table values), then the data files are rewritten in place with `files` and the case itself is computed.  The second
+    calculator must see what the files say NOW (nothing parsed earlier may be reused for a path whose content changed)."""
+    import tempfile, shutil
+    d = tempfile.mkdtemp(prefix="c05rewr_")
+    try:
+        tvdata.Run(files_alt, workdir=d, settings_name="settings.yaml")
+        rb = tvdata.Run(files, workdir=d, settings_name="settings.yaml")
+        out = oracle(files, run=rb)
+        for f in out: f["check"] = "rewritten:" + f["check"]
+        return out
+    finally:
+        shutil.rmtree(d, ignore_errors=True)
+
+
 def yaml_load(text):
     import yaml
     return yaml.safe_load(text)
@@ -432,6 +490,12 @@ def plan(ctx: Ctx, n: int) -> List[dict]:
         if i % 6 == 3: f["static_mesh"] = ["fewer", "more"][(i // 6) % 2]      # elast.dat with its own N
         # every fifth: the rows of the static table (and of its lattice block) are not listed by decreasing volume
         if i % 5 == 2: f["static_rows"] = ["shuffled", "increasing"][(i // 5) % 2]
+        # SHORT tables (the tie: the cubic of `fit_modulus` and the centred ratios of `get_axial_strains` are the same code for every
+        # table length): 4 volumes — where the least-squares cubic interpolates and any lower degree does not — and 5, with and
+        # without lattice block, also with the static table on its own (shorter) mesh
+        if i % 4 == 0: f["nv"] = 4
+        elif i % 4 == 2: f["nv"] = 5
+        elif i % 6 == 3 and f.get("static_mesh") == "fewer": f["nv"] = 6          # elast.dat with 4 rows next to a 6-volume phonon file
     out = forced[:n]
     while len(out) < n:
         out.append({})
@@ -441,7 +505,8 @@ def plan(ctx: Ctx, n: int) -> List[dict]:
 def run_cases(ctx: Ctx, res: Result, n_cases: int, small: bool, budget_s: float, collect_ops: bool = True):
     t0 = time.time()
     dist = res.distribution
-    for name in ("system", "lattice", "nv", "nq", "na", "NT", "NTV", "redundant_keys"):
+    for name in ("system", "lattice", "nv", "nq", "na", "NT", "NTV", "redundant_keys", "static_mesh", "static_rows",
+                 "static_table_rows", "short_table_with_lattice"):
         dist.setdefault(name, {})
     pend = []   # (label, ob) waiting for the model
     seen_shapes = set()
@@ -454,8 +519,12 @@ def run_cases(ctx: Ctx, res: Result, n_cases: int, small: bool, budget_s: float,
         files = tvdata.case_files(ds)
         files_alt = tvdata.case_files(alter_table(ds, sub, desc.get("redundant_keys", 0)))
         res.evaluations += 1
-        for name in ("system", "lattice", "nv", "nq", "na", "NT", "NTV", "redundant_keys"):
+        for name in ("system", "lattice", "nv", "nq", "na", "NT", "NTV", "redundant_keys", "static_mesh", "static_rows"):
             key = str(desc[name]); dist[name][key] = dist[name].get(key, 0) + 1
+        n_rows = int(ds.static_table.shape[0])
+        dist["static_table_rows"][str(n_rows)] = dist["static_table_rows"].get(str(n_rows), 0) + 1
+        if desc["lattice"] and n_rows <= 5:
+            dist["short_table_with_lattice"][str(n_rows)] = dist["short_table_with_lattice"].get(str(n_rows), 0) + 1
         seen_shapes.add((desc["system"], desc["lattice"], desc["nv"], desc["nq"], desc["na"], desc["NT"], desc["NTV"]))
         label = {k: desc[k] for k in ("system", "lattice", "nv", "nq", "na", "NT", "DT", "NTV", "volume_ratio", "P_MIN", "DELTA_P")}
         # ---- oracle on the real code
@@ -475,6 +544,13 @@ def run_cases(ctx: Ctx, res: Result, n_cases: int, small: bool, budget_s: float,
                     input={"files": files, "history": True, "check": f["check"], "desc": label},
                     observed=f["observed"], expected=f["expected"], site=f"c05:{f['check']}"))
             dist["history_cases"] = dist.get("history_cases", 0) + 1
+        if not fails and res.evaluations % 3 == 0:
+            for f in rewrite_oracle(files, files_alt)[:2]:
+                res.oracle_failures.append(OracleFailure(
+                    what=f"C05 {f['check']}" + (f" key {f['key']}" if f["key"] else "") + " (data files rewritten in place after an earlier calculation)",
+                    input={"files": files, "files_alt": files_alt, "rewritten": True, "check": f["check"], "desc": label},
+                    observed=f["observed"], expected=f["expected"], site=f"c05:{f['check']}"))
+            dist["rewritten_file_cases"] = dist.get("rewritten_file_cases", 0) + 1
         if any(f["check"] in ("runs", "grid", "keys") for f in fails):
             continue
         # ---- correspondence inputs (second run of the same files is avoided: observe inside oracle is cheap, redo)
@@ -537,7 +613,9 @@ def search(ctx: Ctx, res: Result):
 
 def replay(ctx: Ctx, payload) -> List[OracleFailure]:
     tvdata.warm_up()
-    fails = history_oracle(payload["files"]) if payload.get("history") else oracle(payload["files"], payload.get("files_alt"))
+    if payload.get("history"): fails = history_oracle(payload["files"])
+    elif payload.get("rewritten"): fails = rewrite_oracle(payload["files"], payload["files_alt"])
+    else: fails = oracle(payload["files"], payload.get("files_alt"))
     # the recorded clause first; any failing clause on this input keeps the violation alive
     fails.sort(key=lambda f: f["check"] != payload.get("check"))
     return [OracleFailure(what=f"C05 {f['check']}" + (f" key {f['key']}" if f["key"] else ""), input=payload,
